@@ -5,7 +5,8 @@
                                _should_skip, _build_operation, FieldMap.__len__/__iter__/_init_operation/__getitem__,
                                graphql_cases (strategy factory choice + keyword arguments)
     specs/graphql/_cache.py  : OperationCache (get_map / insert_map / get_operation / insert_operation)
-    specs/graphql/scalars.py : CUSTOM_SCALARS, get_extra_scalar_strategies (only the `{**extra, **CUSTOM}` merge)
+    specs/graphql/scalars.py : CUSTOM_SCALARS, get_extra_scalar_strategies (here only the `{**extra, **CUSTOM}` merge; the
+                               nine strategies, their value spaces and `scalar()` are in SV/Model/C20Scalars.lean)
     filters.py               : get_operation_attribute, by_value, by_value_list, by_regex, Filter.match, FilterSet.match
     transport/prepare.py     : prepare_body
     graphql-core             : build_client_schema's `{t["name"]: build(t) for t in types}` (last entry wins) and
